@@ -527,6 +527,14 @@ def configs(tier, seed):
                     for lm in (False, True):
                         cfgs.append({'layer': 'B', 'lmtp': lm, 'callers': 2, 'pool_size': 1, 'idle_timeout': it, 'faults': True, 'rcpts': 2,
                                      'rcpt_faults': True, 'd': 0 if q else 1, 'dd': 2})
+                if not q and callers == 3:
+                    # deeper: a fourth caller, one more schedule deviation, pool size 3
+                    for ps4 in sorted(set((ps, 3))):
+                        cfgs.append({'layer': 'B', 'callers': 4, 'pool_size': ps4, 'idle_timeout': it, 'faults': True, 'd': 2, 'dd': 2})
+                        cfgs.append({'layer': 'B', 'callers': 4, 'pool_size': ps4, 'idle_timeout': it, 'faults': False, 'd': 3, 'dd': 0})
+                        cfgs.append({'layer': 'H', 'callers': 4, 'pool_size': ps4, 'idle_timeout': it, 'faults': True, 'd': 2, 'dd': 2})
+                    cfgs.append({'layer': 'B', 'callers': 3, 'pool_size': ps, 'idle_timeout': it, 'faults': True, 'd': 2, 'dd': 3})
+                    cfgs.append({'layer': 'H', 'callers': 3, 'pool_size': ps, 'idle_timeout': it, 'faults': True, 'd': 2, 'dd': 3})
                 cfgs.append({'layer': 'H', 'callers': callers, 'pool_size': ps, 'idle_timeout': it, 'faults': True, 'delays': callers == 2, 'd': 1 if q else 2, 'dd': 2})
     return cfgs
 
